@@ -172,12 +172,14 @@ func ApplyAll(fs []Fault, cur, old []byte) (out []byte, changed bool) {
 // ErrInjected is the I/O error a FaultyReaderAt returns.
 var ErrInjected = errors.New("medium: injected I/O error")
 
-// FaultyReaderAt serves Data but fails (or reads short) for any read touching an offset >= FailFrom.
+// FaultyReaderAt serves Data but fails (or reads short) for any read touching the bad region
+// [FailFrom, FailFrom+FailLen) (FailLen <= 0: everything from FailFrom on).
 // Mode: "eio" returns ErrInjected, "eof" returns io.ErrUnexpectedEOF, "short" returns the
 // bytes before FailFrom with io.EOF.
 type FaultyReaderAt struct {
 	Data     []byte
 	FailFrom int64
+	FailLen  int64
 	Mode     string
 	Fired    int
 	Reads    int
@@ -192,7 +194,7 @@ func (r *FaultyReaderAt) ReadAt(p []byte, off int64) (int, error) {
 		return 0, io.EOF
 	}
 	end := off + int64(len(p))
-	if r.FailFrom >= 0 && end > r.FailFrom {
+	if r.FailFrom >= 0 && end > r.FailFrom && (r.FailLen <= 0 || off < r.FailFrom+r.FailLen) {
 		r.Fired++
 		switch r.Mode {
 		case "eio":
